@@ -233,6 +233,7 @@ Definition get_string (sec : option (list Z)) (v : dval) : res dval :=
       match v with
       | DInt off =>
           if off >=? 2 ^ 63 then Err (EPy "OverflowError")   (* stream.seek *)
+          else if zlen data <=? off then Ok DNone            (* nothing to read: not found *)
           else match parse_cstring_at data (Z.to_nat off) with
                | Some s => Ok (DBytes s)
                | None => Ok DNone
